@@ -197,22 +197,53 @@ def check(col: Collector, tier: str):
     # ------------------------------------------------------------ R5 unique names
     col.floor("C02.R5", 10)
     un = repo.function("unique_name")
-    paths = enumerate_paths(un.node)
-    ok = bool(paths) and all(any(e.kind == "assign" and isinstance(e.node, ast.AugAssign) and src(e.node.target) == "unique_var_index" for e in p.events)
-                             for p in paths if p.status == "return")
-    glob = any(isinstance(n, ast.Global) and "unique_var_index" in n.names for n in ast.walk(un.node))
+    prm0 = un.node.args.args[0].arg
+    paths = [p for p in enumerate_paths(un.node) if p.status == "return"]
     rets = [r for r in walk_no_nested(un.node) if isinstance(r, ast.Return)]
-    vdef = defs_of(un.node, src(rets[0].value)) if rets and isinstance(rets[0].value, ast.Name) else []
-    emb = bool(vdef) and "str(unique_var_index)" in src(vdef[0]) and "name" in src(vdef[0])
-    col.add("C02.R5", un.short, "counter-incremented-on-every-call-and-embedded", ok and glob and emb,
-            "unique_name must append the process-wide counter to the base name and increment it on every path", un.loc)
+    rv = rets[0].value if len(rets) == 1 else None
+    if isinstance(rv, ast.Name):
+        dd = defs_of(un.node, rv.id)
+        rv = dd[0] if len(dd) == 1 else rv
+    ps_ = parts(un.node, rv) if rv is not None else []
+    # the counter: a module-level cell (one number, or one per base name) whose value before the increment goes into the name and which is
+    # advanced on every returning path
+    mod_cells = {n.targets[0].id for n in un.module.tree.body if isinstance(n, ast.Assign) and isinstance(n.targets[0], ast.Name)} | \
+        {n.target.id for n in un.module.tree.body if isinstance(n, ast.AnnAssign) and isinstance(n.target, ast.Name)}
+
+    def counter_of(e, depth=0):
+        """module cell an expression reads its number from (through one local)"""
+        if isinstance(e, ast.Call) and call_name(e) == "str" and e.args:
+            e = e.args[0]
+        if isinstance(e, ast.Name) and e.id in mod_cells:
+            return e.id, "scalar"
+        if isinstance(e, ast.Subscript) and isinstance(e.value, ast.Name) and e.value.id in mod_cells and src(e.slice) == prm0:
+            return e.value.id, "per-name"
+        if isinstance(e, ast.Name) and depth < 2:
+            dd_ = defs_of(un.node, e.id)
+            if len(dd_) == 1:
+                return counter_of(dd_[0], depth + 1)
+        return None
+    idx_name = [i for i, (k, v) in enumerate(ps_) if k == "hole" and src(v) == prm0]
+    ctrs = [(i, counter_of(v)) for i, (k, v) in enumerate(ps_) if k == "hole" and counter_of(v) is not None]
+    adv = False
+    if len(ctrs) == 1:
+        cell, kind_ = ctrs[0][1]
+        def advances(e):
+            n = e.node
+            if isinstance(n, ast.AugAssign) and isinstance(n.op, ast.Add) and src(n.value) == "1":
+                return src(n.target) in (cell, f"{cell}[{prm0}]")
+            if isinstance(n, ast.Assign) and src(n.targets[0]) in (cell, f"{cell}[{prm0}]") and isinstance(n.value, ast.BinOp) and isinstance(n.value.op, ast.Add) \
+                    and src(n.value.right) == "1":
+                return True
+            return False
+        adv = bool(paths) and all(any(e.kind == "assign" and advances(e) for e in p.events) for p in paths)
+    col.add("C02.R5", un.short, "counter-incremented-on-every-call-and-embedded", adv and len(idx_name) == 1 and len(ctrs) == 1,
+            f"unique_name must build the name from the base name and a counter that is advanced on every call (template {shape(ps_)}, "
+            f"counter {ctrs[0][1] if ctrs else None})", un.loc)
     # base name and counter must not run together: "x1"+"1" and "x"+"11" are the same identifier (two columns x1 and x, eleven apart)
-    ps_ = parts(un.node, vdef[0]) if vdef else []
-    idx_name = [i for i, (k, v) in enumerate(ps_) if k == "hole" and src(v) == un.node.args.args[0].arg]
-    idx_ctr = [i for i, (k, v) in enumerate(ps_) if k == "hole" and "unique_var_index" in src(v)]
     sep_ok = False
-    if len(idx_name) == 1 and len(idx_ctr) == 1 and idx_ctr[0] > idx_name[0]:
-        between = ps_[idx_name[0] + 1:idx_ctr[0]]
+    if len(idx_name) == 1 and len(ctrs) == 1 and ctrs[0][0] > idx_name[0]:
+        between = ps_[idx_name[0] + 1:ctrs[0][0]]
         for k, v in between:
             if k == "lit" and v and not v[-1].isdigit():
                 sep_ok = True
